@@ -1,6 +1,7 @@
 """C14 — no metric name can place a file outside the data directory."""
 import itertools
 import os
+import sys
 
 from vlib import gen
 
@@ -133,6 +134,35 @@ def run_config(cfg, res):
 
   seen_paths = {}
   nfresh = [0]
+  # every file-system call the database makes on behalf of a name (audit events) must stay inside the data directory
+  armed = [False]
+  escapes = []
+
+  def fs_hook(ev, args):
+    if not armed[0]:
+      return
+    if ev == 'open':
+      if not (isinstance(args[0], (str, bytes)) and isinstance(args[1], str) and any(c in args[1] for c in 'wax+')):
+        return
+      paths = [args[0]]
+    elif ev in ('os.rename', 'os.mkdir', 'os.remove', 'os.symlink', 'os.link', 'os.truncate', 'os.rmdir', 'shutil.move', 'shutil.copyfile', 'os.chmod', 'os.chown'):
+      paths = [a for a in args[:2] if isinstance(a, (str, bytes))]
+    else:
+      return
+    armed[0] = False
+    try:
+      for p_ in paths:
+        if isinstance(p_, bytes):
+          p_ = p_.decode('utf-8', 'surrogateescape')
+        try:
+          rp_ = os.path.realpath(p_)
+        except Exception:
+          rp_ = os.path.normpath(p_)
+        if not (rp_ == real_data or rp_.startswith(real_data + os.sep)):
+          escapes.append((ev, p_))
+    finally:
+      armed[0] = True
+  sys.addaudithook(fs_hook)
   created = 0
   create_budget = 1500 if cfg['tier'] == 'quick' else 8000
   label = '%s/hash=%s' % (backend, cfg['hashf'])
@@ -189,11 +219,29 @@ def run_config(cfg, res):
     if (created < create_budget and (len(name) <= 3 or r.random() < 0.15)
         and rp.startswith(os.path.realpath(ns.root) + os.sep)):   # never touch anything outside the scratch root
       created += 1
+      armed[0] = True
       try:
         db.create(name, [(60, 10)], 0.5, 'average')
         res.count('creates_ok')
+        if created % 3 == 0:
+          # ... and written to, the library refusing the write now and then (a corrupt file, an I/O error)
+          wsp = sys.modules.get('whisper')
+          if wsp is not None and hasattr(wsp, 'NEXT_UPDATE_FAULT'):
+            wsp.NEXT_UPDATE_FAULT[0] = [None, 'CorruptWhisperFile', 'IOError', 'CorruptWhisperFile'][(created // 3) % 4]
+          try:
+            db.write(name, [(1500000000, 1.0)])
+            res.count('writes_ok')
+          except Exception:
+            res.count('writes_raised')
       except Exception:
         res.count('creates_raised')
+      finally:
+        armed[0] = False
+      if escapes:
+        ev_, p_ = escapes[0]
+        res.violation(label + '/touched-outside/%s' % ev_, 'while creating / writing %r the database touched %r (%s), outside data dir %r' % (name, p_, ev_, real_data),
+                      dict(name=name), case=dict(name=name))
+        del escapes[:]
     res.case((label, name), nontrivial)
     if nontrivial:
       res.sample(dict(backend=backend, hashf=cfg['hashf'], name=name, path=p1))
